@@ -1483,3 +1483,17 @@ Proof.
   - pose proof (ubi_mints_gate_lemma cf (s_ubis x) x) as G. rewrite Y, P, N in G. apply G. exact Hm.
   - apply ubi_mints_sum. exact EU.
 Qed.
+
+(* ================================================================ genesis round trip
+   In the model an export / wipe / import is the identity on supply, registry, UBI records and pools,
+   and leaves the annual gate exactly where it was (a never-stored snapshot amount comes back as 0,
+   which the gate treats the same way). *)
+Lemma genesis_roundtrip_gate : forall ys m sup now,
+  inflation_possible (snap_norm ys) m sup now = inflation_possible ys m sup now.
+Proof. intros [t [a|]] m sup now; reflexivity. Qed.
+Lemma genesis_roundtrip_identity : forall s,
+  nat_supply (genesis_roundtrip s) = nat_supply s /\ s_reg (genesis_roundtrip s) = s_reg s /\ s_bank (genesis_roundtrip s) = s_bank s
+  /\ s_ubis (genesis_roundtrip s) = s_ubis s /\ s_pools (genesis_roundtrip s) = s_pools s /\ s_params (genesis_roundtrip s) = s_params s
+  /\ sn_time (s_ysnap (genesis_roundtrip s)) = sn_time (s_ysnap s) /\ sn_time (s_psnap (genesis_roundtrip s)) = sn_time (s_psnap s)
+  /\ (forall m sup now, inflation_possible (s_ysnap (genesis_roundtrip s)) m sup now = inflation_possible (s_ysnap s) m sup now).
+Proof. intros s. repeat split. intros. apply genesis_roundtrip_gate. Qed.
